@@ -100,14 +100,11 @@ QAll(tabs) == QDepth2(tabs) \cup QDepth3(tabs, InQs, InQs)
 
 (* the statement of the counterexample on the mechanism as shipped:  SELECT x IN (SELECT y FROM #u) FROM #t *)
 QShipped == { Plain(<<Tg(InQ(Col("x"), Plain(<<Tg(Col("y"), "")>>, Tab("u"))), "")>>, Tab("t")) }
-(* a tiny set for the per-action coverage run (TLC's coverage bookkeeping is very costly on this specification) *)
-QCov == QShipped \cup { Outer(Sub(b), OutSchema(b, TabsA), "star", G0) : b \in {x \in BaseU : x.dis} }
 QOne == { Plain(<<Tg(Col("x"), "")>>, Tab("t")) }
 
 (* INIT predicates (state-level, so that TLC builds only the set a configuration asks for) *)
 InitQuick == InitWith(QQuick(Tabs))
 InitAll == InitWith(QAll(Tabs))
 InitShipped == InitWith(QShipped)
-InitCov == InitWith(QCov)
 InitOne == InitWith(QOne)
 =============================================================================
